@@ -22,4 +22,28 @@ CHECKS = {
           "actually invoked (with its arguments) against the specification state."),
     note=("Three fixture resources, four classes, one unknown class; class vs postponed string annotations are mixed in the fixtures. What a refused "
           "register leaves behind and whether unregister of a non-owner raises are left unspecified.")),
+ "C16": dict(
+    level="exploration",
+    technique="TLC-enumerated bounded grammar (patterns x paths, route tables x requests); real Router observed on every element; TLC judges the table against Router!Matches / FirstMatch",
+    text=("The documented pattern grammar is transcribed into TLA+ (Router!Matches, FirstMatch). TLC enumerates every admissible pattern (<= 4 segments) and every "
+          "path (<= 5 segments over an alphabet with prefixes/extensions of literals, a regex metacharacter, empty segments and trailing slashes) and every ordered "
+          "route table; the real Router answers every pair (getRoute / dispatch) and TLC judges each answer and the completeness of the table. Exhaustive within the bound; "
+          "exploration level because the router is a pure function and the specification supplies the oracle and the input space, not a state-space argument."),
+    note=("Bound: alphabets and lengths in harness/props/c16.py; empty segments inside multi-segment captures and suffix operators in non-final position are not judged. "
+          "The JSON bridge and the concretisation of abstract patterns/paths to strings are trusted.")),
+ "C17": dict(
+    level="exploration",
+    technique="TLC-enumerated adversarial name space; real path_join_safe observed on every (root, name); TLC judges containment (PathJoin!Safe)",
+    text=("Names are assembled by TLC from an adversarial segment alphabet, both separators and absolute-looking prefixes (up to 4 segments over 9 symbols, 6 over a reduced "
+          "alphabet); the real function is called for every (root, name) and for names captured by the real router from hostile URLs and random unicode; TLC judges each outcome: "
+          "ValueError, or a path whose components extend the normalised root and contain no '..'."),
+    note="POSIX path semantics of this platform; the root is normalised with os.path.abspath by the harness (trusted)."),
+ "C18": dict(
+    level="model_checking",
+    technique="TLC-judged RFC 6455 header table (WsFrame) + TLC exhaustive model checking of WsStream with every graph behaviour replayed into the real handler + TLC trace validation of recorded runs at real frame sizes",
+    text=("WsFrame!Header is the RFC's header rule; the library's serialised header and its parse-back are tabulated for every opcode x mask x length (all of 0..70000 in the "
+          "thorough tier) and judged by TLC. WsStream models frames cut into arbitrary TCP reads and is checked exhaustively (prefix / no-lag / all-when-drained); every path of its "
+          "state graph, i.e. every (frame lengths, cut set) within the bound, is replayed into WebSocketTemporaryHandler and the endpoint's deliveries compared after each read; "
+          "runs with 126-/127-class frames and random cuts are recorded and validated by Trace_WsStream."),
+    note="Payload bytes and masking are exercised with random content by the harness and compared for equality there; fragmented (FIN=0) messages are out of scope (the library does not build them)."),
 }
